@@ -14,7 +14,42 @@ import sys
 
 V = os.path.dirname(os.path.dirname(os.path.abspath(__file__)))
 sys.path.insert(0, V)
-FLIP = ("ok", "ok1", "isinst", "body", "decoded", "built", "bindable", "accepted", "same", "resolved", "valid")
+FLIP = ("ok", "ok1", "isinst", "body", "decoded", "built", "bindable", "same", "resolved", "valid", "raised")
+
+
+def specific(module, r):
+    """corruptions for records without a verdict-like boolean"""
+    if module == "Trace_Conform":
+        r["v"] = dict(r["v"], k="none", t=["NoneType", "object"], n=0, d=1, items=[], ks=[])
+        return True
+    if module == "Trace_SchemaObj":
+        for st in reversed(r.get("steps", [])):
+            for view in st.get("views", []):
+                if view.get("data"):
+                    view["data"][0]["v"] = dict(view["data"][0]["v"], n=view["data"][0]["v"]["n"] + 1000)     # the mapping view no longer agrees with getattr
+                    return True
+        return False
+    if module == "Trace_Registry":
+        for st in r.get("steps", []):
+            if st.get("op") == "res":
+                st["fn"] = st["fn"] + 1
+                return True
+        return False
+    if module == "Trace_SchemaGen":
+        if r.get("kind") == "doc" and r.get("accepted"):
+            r["accepted"] = r["accepted"][1:]
+            return True
+        if r.get("kind") == "out" and isinstance(r.get("v"), dict):
+            r["v"] = dict(r["v"], j="str", s="corrupted", ln=9, a=[], ks=[], vs=[])
+            return True
+        return False
+    if module == "Trace_Suite":
+        if r.get("kind") == "input":
+            r["a"] = r["a"] + "!"
+        else:
+            r["ok2"] = False
+        return True
+    return False
 
 
 def flip_first(x, depth=0):
@@ -53,7 +88,7 @@ def main():
             for r in clean[:120]:
                 c = copy.deepcopy(r)
                 rest = {k: v for k, v in c.items() if k != "id"}
-                if flip_first(rest):
+                if specific(d["module"], rest) or flip_first(rest):
                     rest["id"] = "X" + str(r["id"])
                     bad.append(rest)
             if not bad:
@@ -67,7 +102,10 @@ def main():
                 out["%s/%s" % (pid, d["module"])] = {"corrupted": len(bad), "rejected": len(bad), "note": "trace rejected as ill-formed: " + str(e)[:80]}
             print(pid, d["module"], out["%s/%s" % (pid, d["module"])], flush=True)
         shutil.rmtree(kd, ignore_errors=True)
-    json.dump(out, open(os.path.join(V, "seeded", "selftest.json"), "w"), indent=1, sort_keys=True)
+    path = os.path.join(V, "seeded", "selftest.json")
+    done = json.load(open(path)) if os.path.exists(path) else {}
+    done.update(out)
+    json.dump(done, open(path, "w"), indent=1, sort_keys=True)
 
 
 if __name__ == "__main__":
